@@ -13,9 +13,10 @@ helpers), spec predicates: `Brax/Spec/C14.lean` (`Clean`, `specLinkType`, `Colli
   facts of a compiled `MjModel` that the code's `zip`/`groupby` really need);
 * `init_*` — each pipeline's `init` is `validate >>= rest`;
 * `load_*`, `dofRanges_*`, `qIdx_*`, `dofLink_*` — consistency of an accepted model's system;
-* DEFECT (`cylinder_conaffinity_only_accepted`, `validate_rejects_cylinder_Stmt_false`): the
-  collision mask of the cylinder check is computed in int32, `conaffinity << 32` is 0, so a long
-  cylinder with `contype = 0, conaffinity = 1` — which collides — is accepted.
+* the cylinder check uses `contype | conaffinity << 32` on python ints since fix 132d4d7 (before, an
+  int32 shift lost the conaffinity half and a colliding `contype = 0, conaffinity = 1` cylinder was
+  accepted); `validate_rejects_cylinder` / `validate_rejects_colliding_long_cylinder` are now the
+  full statement and `exCylinder` is a rejected example.
 
 Only property theorems and non-vacuity examples live in this file.
 -/
@@ -195,18 +196,33 @@ theorem validate_rejects_anchor (m : MjFeatures) (hsorted : JntSorted m)
   rw [← h2] at h1
   exact hpq (Option.some.inj h1)
 
-/-- a colliding long cylinder, **as the code defines colliding** (`contype > 0`; the conaffinity
-half of the mask is lost, see the defect section) -/
-theorem validate_rejects_cylinder_partial (m : MjFeatures) (hs : GeomShapes m)
-    (h : ∃ (i : Nat) (sz : Rat × Rat × Rat) (ct : Int), m.geomType[i]? = some 5 ∧ m.geomSize[i]? = some sz ∧ sz.2.1 > cylThreshold ∧
-      m.geomContype[i]? = some ct ∧ ct > 0) : validate m ≠ .ok () := by
+/-- a colliding long cylinder anywhere: half-length > 0.001 and either collision bit mask set -/
+theorem validate_rejects_cylinder (m : MjFeatures)
+    (h : ∃ (i : Nat) (sz : Rat × Rat × Rat) (ct ca : Int), m.geomType[i]? = some 5 ∧
+      m.geomSize[i]? = some sz ∧ sz.2.1 > cylThreshold ∧ m.geomContype[i]? = some ct ∧
+      m.geomConaffinity[i]? = some ca ∧ 0 ≤ ct ∧ 0 ≤ ca ∧ (ct ≠ 0 ∨ ca ≠ 0)) : validate m ≠ .ok () := by
   intro hok
-  obtain ⟨i, sz, ct, ht, hsz, hlong, hct, hpos⟩ := h
+  obtain ⟨i, sz, ct, ca, ht, hsz, hlong, hct, hca, h0, h1, hne⟩ := h
   have hc := ((validate_ok_iff_clean m).1 hok).2.2.2.2.2.2.2.2.2.2.2
-  obtain ⟨_, _, _, _, _, h6⟩ := hs
-  have hlt := lt_of_getElem?_some _ _ _ ht
-  obtain ⟨ca, hca⟩ := getElem?_some_of_lt m.geomConaffinity i (by omega)
-  exact hc _ (geomRows_getElem? m i 5 sz ct ca ht hsz hct hca) ⟨rfl, hlong, by simpa [collisionMask, shl32Int32] using hpos⟩
+  refine hc _ (geomRows_getElem? m i 5 sz ct ca ht hsz hct hca) ⟨rfl, hlong, ?_⟩
+  simp only [collisionMask, shl32Int32]
+  omega
+
+/-- the same in the property's words (`CollidingLongCylinder`), for the bit masks of a compiled model -/
+theorem validate_rejects_colliding_long_cylinder (m : MjFeatures) (hb : MaskBits m)
+    (h : CollidingLongCylinder m) : validate m ≠ .ok () := by
+  intro hok
+  obtain ⟨r, hr, h5, hlong, hne⟩ := h
+  obtain ⟨t, sz, ct, ca⟩ := r
+  have hc := ((validate_ok_iff_clean m).1 hok).2.2.2.2.2.2.2.2.2.2.2
+  have hz := (List.of_mem_zip (List.of_mem_zip (List.of_mem_zip hr).2).2)
+  have h0 : 0 ≤ ct := (hb.1 _ hz.1).1
+  have h1 : 0 ≤ ca := (hb.2 _ hz.2).1
+  have hne' : ct ≠ 0 ∨ ca ≠ 0 := hne
+  refine hc _ hr ⟨h5, hlong, ?_⟩
+  show collisionMask ct ca > 0
+  simp only [collisionMask, shl32Int32]
+  omega
 
 /-! ## `pipeline.init` of the three native pipelines -/
 
@@ -514,7 +530,7 @@ theorem load_consistent (m : MjFeatures) (hok : validate m = .ok ()) (hwf : WF m
       o.actQdId.map some = m.actTrnid.map (fun id => m.jntDofadr[id.toNat]?) ∧
       typesOk o.linkTypes = true := by
   have hc := (validate_ok_iff_clean m).1 hok
-  obtain ⟨hs, _, hsa, hsorted, hadr, hbo, hbj, hao⟩ := hwf
+  obtain ⟨hs, _, hsa, hsorted, hadr, hbo, hbj, hao, _⟩ := hwf
   obtain ⟨o, ho, hq, hqd, hlt, hlp⟩ := load_actuators m hc hs hsa hao
   obtain ⟨hnq, hnv, hq0⟩ := load_counts m hc h3 hs hadr
   obtain ⟨hcnt, hpar⟩ := load_link_count_bodies m hc h3 hsorted hs.1 hbj
@@ -532,37 +548,6 @@ theorem load_consistent (m : MjFeatures) (hok : validate m = .ok ()) (hwf : WF m
   · rw [hlt]; exact load_types_valid m hc h3
 
 
-
-/-! ## DEFECT: a colliding long cylinder with `contype = 0` is accepted
-
-`mask = mj.geom_contype[i] | mj.geom_conaffinity[i] << 32` is evaluated on `numpy.int32`
-scalars: the shift by the full width gives 0, the conaffinity half never reaches the mask.  The
-property (and the error message "not supported for collision") speaks of *colliding* cylinders;
-MuJoCo / mjx collide a pair when `contype₁ & conaffinity₂ ≠ 0 ∨ contype₂ & conaffinity₁ ≠ 0`, so a
-cylinder with `conaffinity = 1` collides with every default geom.  Confirmed on the real code:
-`harness/corr_C14.py` (feature `cylinder`, variant `conaffinity-only`) — all three `init`s accept
-and `contact.get` lists contacts of that cylinder. -/
-
-/-- the full-strength statement of the property for cylinders -/
-def validate_rejects_cylinder_Stmt : Prop :=
-  ∀ m : MjFeatures, GeomShapes m → CollidingLongCylinder m → validate m ≠ .ok ()
-
-/-- witness: a well-formed model with a long (half-length 0.2) cylinder whose conaffinity is 1 —
-colliding by the property's reading — is accepted by `validate_model` -/
-theorem cylinder_conaffinity_only_accepted :
-    WF exCylinder ∧ CollidingLongCylinder exCylinder ∧ validate exCylinder = .ok () := by
-  decide +kernel
-
-/-- hence the full statement is false of the code; what holds is `validate_rejects_cylinder_partial` -/
-theorem validate_rejects_cylinder_Stmt_false : ¬ validate_rejects_cylinder_Stmt := by
-  intro h
-  obtain ⟨hwf, hcol, hok⟩ := cylinder_conaffinity_only_accepted
-  exact h exCylinder hwf.2.1 hcol hok
-
-/-- ... and every pipeline's `init` lets that model through -/
-theorem init_accepts_conaffinity_only_cylinder (p : Pipeline) :
-    init p (some exCylinder) (.ok ()) = .ok () := by
-  rw [init_accepts p exCylinder _ cylinder_conaffinity_only_accepted.2.2]
 
 /-! ## non-vacuity: a concrete accepted model, and one rejected model per feature -/
 
@@ -599,6 +584,13 @@ example : validate { exClean with jntStiffness := [1/1000, 2, 0, 0] } = .error .
 example : validate { exClean with geomSolmix := [1, 1, 2, 1] } = .error .notImplemented := by decide +kernel
 example : validate { exClean with geomPriority := [0, 0, 0, 1] } = .error .notImplemented := by decide +kernel
 example : validate { exClean with geomContype := [1, 1, 1, 1] } = .error .notImplemented := by decide +kernel
+-- the conaffinity-only long cylinder (accepted before fix 132d4d7) is rejected, by the model and by the theorem
+example : WF exCylinder ∧ CollidingLongCylinder exCylinder ∧ validate exCylinder = .error .notImplemented := by
+  decide +kernel
+example : validate exCylinder ≠ .ok () :=
+  validate_rejects_colliding_long_cylinder exCylinder (by decide +kernel) (by decide +kernel)
+example (p : Pipeline) : init p (some exCylinder) (.ok ()) = .error .notImplemented :=
+  init_rejects p exCylinder _ _ (by decide +kernel)
 example : validate { exClean with jntPos := [(0, 0, 0), (1/10, 0, 0), (1/10, 0, 1/10), (0, 0, 0)] }
     = .error .runtime := by decide +kernel
 -- boundaries: half-length exactly the double 0.001 is accepted even when colliding; no geoms / no
